@@ -359,3 +359,13 @@ Proof.
   revert w; induction ops as [|o r IH]; intros w H Hp; cbn; auto.
   split; auto. apply IH; [apply Hp; [left|]; auto|]. intros o' w' Ho'. apply Hp; right; auto.
 Qed.
+
+Lemma check_ok_some fk l m :
+  check_synced fk l = COk (Some m) ->
+  l <> [] /\ forall n c, In (n, c) l -> dget fk c = Some m /\ is_dirty m = false.
+Proof.
+  intros H. destruct (check_loop_some fk l None false m H) as [_ [B [_ D]]]. split; auto.
+Qed.
+Lemma check_ok_none fk l :
+  check_synced fk l = COk None -> forall n c, In (n, c) l -> dget fk c = None.
+Proof. intros H. exact (check_loop_none fk l false H). Qed.
